@@ -481,4 +481,61 @@ theorem world_history_winv {env : Env} {info : Info} {msg : InstantiateMsg} {c0 
     WInv (runW (bootWorld c0 self pfx t hgt) {} evs).1 (runW (bootWorld c0 self pfx t hgt) {} evs).2 :=
   (runW_winv evs ⟨env, info, msg, c0, out, [], hi, rfl⟩ (winv_boot hi self pfx t hgt) hok).1
 
+/-! ## executable forms of the conditions (used to exhibit concrete histories that satisfy them) -/
+
+def msgOKb (s : CState) (self sender : String) : ExecMsg → Bool
+  | .liquidStake mt _ _ => mt.getD sender != self
+  | .updateConfig _ p _ _ _ => match p with
+    | some pr => pr.channel == s.config.proto.channel
+    | none => true
+  | .recover _ sel _ => sel.isNone
+  | _ => true
+
+theorem msgOKb_sound {s : CState} {self sender : String} {m : ExecMsg} (h : msgOKb s self sender m = true) :
+    MsgOKc s self sender m := by
+  cases m <;> simp only [msgOKb, MsgOKc] at h ⊢
+  case liquidStake mt tn ex => simpa using h
+  case updateConfig n p f mo bp =>
+    intro pr hp; subst hp; simpa using h
+  case recover pg sel rc => cases sel <;> simp_all
+
+def evOKb (w : World) : Event → Bool
+  | .exec sender _ msg _ _ => sender != w.self && msgOKb w.c w.self sender msg
+  | .hook channel ns _ msg _ =>
+    match deriveIntermediateSender channel ns w.chainPrefix with
+    | some acct => acct != w.self && msgOKb w.c w.self acct msg
+    | none => true
+  | .strayAck channel seq _ => channel != w.c.config.proto.channel || (w.c.inflight.find? seq).isNone
+  | .strayTimeout channel seq => channel != w.c.config.proto.channel || (w.c.inflight.find? seq).isNone
+  | .donate sender _ => sender != w.self
+  | _ => true
+
+theorem evOKb_sound {w : World} {e : Event} (h : evOKb w e = true) : EvOK w e := by
+  cases e <;> simp only [evOKb, EvOK] at h ⊢
+  case exec sender funds msg f txi =>
+    simp only [Bool.and_eq_true, bne_iff_ne, ne_eq] at h
+    exact ⟨h.1, msgOKb_sound h.2⟩
+  case hook channel ns coin msg f =>
+    intro acct ha
+    simp only [ha, Bool.and_eq_true, bne_iff_ne, ne_eq] at h
+    exact ⟨h.1, msgOKb_sound h.2⟩
+  case strayAck channel seq b =>
+    simp only [Bool.or_eq_true, bne_iff_ne, ne_eq, Option.isNone_iff_eq_none] at h
+    exact h
+  case strayTimeout channel seq =>
+    simp only [Bool.or_eq_true, bne_iff_ne, ne_eq, Option.isNone_iff_eq_none] at h
+    exact h
+  case donate sender coin => simpa using h
+
+def allOKb : World → List Event → Bool
+  | _, [] => true
+  | w, e :: es => evOKb w e && allOKb (step w e).w es
+
+theorem allOKb_sound {w : World} {evs : List Event} (h : allOKb w evs = true) : AllOK w evs := by
+  induction evs generalizing w with
+  | nil => trivial
+  | cons e es ih =>
+    simp only [allOKb, Bool.and_eq_true] at h
+    exact ⟨evOKb_sound h.1, ih h.2⟩
+
 end MW.Chain
